@@ -567,8 +567,12 @@ def parseChunk(raw):  # reading transfer encoded raw
         exts = exts.split(b';')
         for ext in exts:
             ext = ext.strip()
+            if not ext:
+                continue
             name, sep, value = ext.partition(b'=')
-            parms[name.strip()] = value.strip() or None
+            # bytearray slices are unhashable so convert to str as with headers
+            name = name.strip().decode('iso-8859-1')
+            parms[name] = value.strip().decode('iso-8859-1') or None
 
     if size == 0:  # last chunk so parse trailing headers if any
         leaderParser = parseLeader(raw=raw,
